@@ -665,16 +665,13 @@ static inline char *safec_fmt_find_n(const char *fmt, int is_scanf) {
     while (*(p) >= '0' && *(p) <= '9')                                         \
         (p)++
         if (is_scanf) { /* '*' assignment suppression, ' grouping, I, width, m */
-            if (*p == '*')
-                p++;
-            if (*p == '\'')
-                p++;
-            if (*p == 'I')
+            /* libc takes these three flags in any order, also repeated */
+            while (*p == '*' || *p == '\'' || *p == 'I')
                 p++;
             SAFEC_FMT_DIGITS(p);
             if (*p == '$') /* n$ */ {
                 p++;
-                if (*p == '*')
+                while (*p == '*' || *p == '\'' || *p == 'I')
                     p++;
                 SAFEC_FMT_DIGITS(p);
             }
@@ -757,16 +754,13 @@ static inline wchar_t *safec_wfmt_find_n(const wchar_t *fmt, int is_scanf) {
     while (*(p) >= L'0' && *(p) <= L'9')                                         \
         (p)++
         if (is_scanf) { /* '*' assignment suppression, ' grouping, I, width, m */
-            if (*p == L'*')
-                p++;
-            if (*p == L'\'')
-                p++;
-            if (*p == L'I')
+            /* libc takes these three flags in any order, also repeated */
+            while (*p == L'*' || *p == L'\'' || *p == L'I')
                 p++;
             SAFEC_FMT_DIGITS(p);
             if (*p == L'$') /* n$ */ {
                 p++;
-                if (*p == L'*')
+                while (*p == L'*' || *p == L'\'' || *p == L'I')
                     p++;
                 SAFEC_FMT_DIGITS(p);
             }
